@@ -255,6 +255,12 @@ def catalogue(fam, p, rng):
         cut = canon[:1] + pk.vbi(len(canon) - hl - 1) + canon[hl:-1]
         follow = (b'\x20\x03\x00\x00\x00' if v5 else b'\x01\x00\x00') if kind == 'subscribe' else b'\x61\xc0\x00'
         res.append(('entry-overruns-frame', cut + follow, {'all': 'err InvalidRemainingLength'}))
+    # --- QoS 1/2 PUBLISH whose remaining length ends before or inside the packet identifier (the stream goes on)
+    if kind == 'publish' and p[3] > 0:
+        tl = len(p[5])
+        for d in (0, 1):
+            if len(pk.vbi(2 + tl + d)) == hl - 1:
+                res.append(('publish-no-room-for-pid', canon[:1] + pk.vbi(2 + tl + d) + canon[hl:], {'all': 'err InvalidRemainingLength'}))
     # --- remaining length + 1 with one extra byte (fixed-structure packets)
     if (not v5 and kind in ('connect', 'connack', 'puback', 'pubrec', 'pubrel', 'pubcomp', 'unsuback')) or \
             (v5 and kind in ('connect', 'connack')):
